@@ -185,7 +185,7 @@ theorem stumpCands_spec [Log α] (sort : List (Item α) → List (Item α)) (hso
   have hsorted := hsort.sorted items
   have hspec := sweep_sound Item.upd0 Mom.zero [] (sort items) (by simpa using hsorted) sc (by simpa using hsc)
   simp only [List.nil_append] at hspec
-  obtain ⟨hacc, hmid, hlne, hrne, _⟩ := hspec
+  obtain ⟨hacc, hmid, hlne, hrne, _, _⟩ := hspec
   -- the two accumulators
   have hneg : sc.2 = momOf ((leftOf sc.1 (sort items)).map (·.r)) := by
     rw [hacc, foldl_itemUpd0]; rfl
@@ -252,7 +252,7 @@ theorem stumpCands_complete [Log α] (sort : List (Item α) → List (Item α)) 
   have hperm := hsort.perm (present rows)
   obtain ⟨x, hx, hxt⟩ := hl
   obtain ⟨y, hy, hyt⟩ := hr
-  obtain ⟨sc, hsc, hsame⟩ := sweep_complete Item.upd0 t (sort (present rows)) Mom.zero (hsort.sorted _)
+  obtain ⟨sc, hsc, hsame, _⟩ := sweep_complete Item.upd0 t (sort (present rows)) Mom.zero (hsort.sorted _)
     ⟨x, hperm.symm.subset hx, hxt⟩ ⟨y, hperm.symm.subset hy, hyt⟩
   refine ⟨stumpCand T K crit f ((present rows).foldl Item.upd0 Mom.zero) (missRss T rows) (missCnt rows) sc, ?_, ?_⟩
   · unfold stumpCands; exact List.mem_map.mpr ⟨sc, hsc, rfl⟩
